@@ -17,6 +17,10 @@ import Robotools.Props.C01Dist
 #print axioms Robotools.RP.within_compile
 #print axioms Robotools.RP.recs_within_exec
 #print axioms Robotools.C01D.abort_safe_dist
+#print axioms Robotools.C01D.abort_safe_evo
+#print axioms Robotools.C01D.abort_safe_fluent
 #print axioms Robotools.C01D.step_safeD
 #print axioms Robotools.Dist.safe_compileDistribute
 #print axioms Robotools.Dist.compileRD_cases
+#print axioms Robotools.Dist.posInj_evo
+#print axioms Robotools.Dist.nodup_pos
